@@ -69,7 +69,7 @@ InitCtx(r) ==
     hasPrev |-> FALSE, prevQs |-> <<>>, prevW |-> <<0, 0, 0>>, prevFiles |-> <<>>,
     prevMem |-> <<0, 0>>, prevTrk |-> <<>>, prevSnap |-> <<>>,
     attr |-> [q \in 0..(r.nq - 1) |-> <<>>],
-    batches |-> <<>>,
+    batches |-> <<>>, embeds |-> {},
     crashfree |-> TRUE, sub |-> FALSE, subprops |-> {}, step |-> 0, dead |-> FALSE ]
 
 NoCtx == [run |-> -1]
@@ -223,10 +223,41 @@ CrashViol(r, c) ==
    \cup (IF AlwaysPolicy(c.policy) /\ r.model = "process"
          THEN {<<"C04", m>> : m \in PosViolState(r.st, asg2, c)} ELSE {})
 
------------------------------------------------------------------------------
-(* Reporting *)
 Tag(prop, S) == {<<prop, m>> : m \in S}
 
+(* --- damage monitors (C08, C09, C10, C12) --- *)
+Genuine(q, rec, c) == \E i \in 1..Len(c.batches) : c.batches[i].q = q /\ \E j \in 1..Len(c.batches[i].recs) : c.batches[i].recs[j] = rec
+
+NonGenuine(st, c) ==
+     {"positions of a recovered queue are not strictly increasing" :
+        i \in {i \in 1..Len(st.qs) : \E j \in 1..(Len(st.qs[i].recs) - 1) : st.qs[i].recs[j][1] >= st.qs[i].recs[j + 1][1]}}
+\cup UNION { {IF <<st.qs[i].q, st.qs[i].recs[j]>> \in c.embeds
+               THEN "recovered record equals an entry embedded in a payload (Embeds class) after damage to the enclosing frame"
+               ELSE "recovered record was never appended" :
+                 j \in {j \in 1..Len(st.qs[i].recs) : ~Genuine(st.qs[i].q, st.qs[i].recs[j], c)}} : i \in 1..Len(st.qs) }
+
+LostViol(x, c, hit) ==
+  {"a retained record whose append was not hit is missing after single-frame payload/CRC damage" :
+     q \in {q \in QIds(c) : c.qm[q].a /\
+              \E i \in 1..Len(c.qm[q].recs) :
+                 LET rec == c.qm[q].recs[i]
+                     covered == hit.kind = "append" /\ hit.q = q /\ hit.first <= rec[1] /\ rec[1] < hit.first + hit.n
+                 IN ~covered /\ ~(x[q].a /\ \E k \in 1..Len(x[q].recs) : x[q].recs[k] = rec)}}
+
+DamageViol(r, c) ==
+  LET sane == r.out \in {"ok", "err"} /\ r.accpanic = 0 /\ r.allocok = 1
+      single == r.cls \in {"payload", "crc"}
+  IN  (IF ~sane THEN {<<"C10", "open on a damaged directory: " \o r.out \o (IF r.accpanic = 1 THEN ", accessor panicked" ELSE "") \o (IF r.allocok = 0 THEN ", allocation bound exceeded" ELSE "")>>} ELSE {})
+ \cup (IF r.out = "ok" /\ r.accpanic = 0 THEN
+          LET x == StAbs(r.st, c.nq) IN
+               (IF r.cls \in {"payload", "crc", "hdr", "noise", "embed"} THEN Tag("C08", NonGenuine(r.st, c)) ELSE {})
+          \cup (IF single THEN Tag("C09", LostViol(x, c, r.hit)) ELSE {})
+          \cup (IF r.cls \in {"payload", "crc", "hdr"} THEN Tag("C12", BatchViol(x, c.batches)) ELSE {})
+        ELSE IF single THEN {<<"C09", "open failed after single-frame payload/CRC damage: " \o r.out>>}
+        ELSE {})
+
+-----------------------------------------------------------------------------
+(* Reporting *)
 (* inside a crash continuation every violation is also a violation of the  *)
 (* property that demanded the continuation ("the recovered log is fully    *)
 (* usable")                                                                *)
@@ -262,6 +293,7 @@ TrBegin ==
   /\ R.ev = "begin"
   /\ LET call == CallOf(R) IN
        ctx' = [ctx EXCEPT !.cur = call, !.curFsync = R.fsync,
+                          !.embeds = @ \cup {<<R.emb[i][1], <<R.emb[i][2], R.emb[i][3], R.emb[i][4]>>>> : i \in 1..Len(R.emb)},
                           !.pendP = SetLastOp(@, call), !.pendW = SetLastOp(@, call)]
   /\ UNCHANGED <<saved, refObs, nviol>>
 
@@ -348,6 +380,23 @@ TrCrash ==
            ELSE UNCHANGED <<ctx, saved>>
   /\ UNCHANGED refObs
 
+TrDamage ==
+  /\ R.ev = "damage"
+  /\ LET c == ctx
+         V == DamageViol(R, c)
+     IN /\ Report(V)
+        /\ nviol' = nviol + Cardinality(V)
+        /\ IF R.out = "ok" /\ R.accpanic = 0 /\ R.ncont > 0 THEN
+              LET x == StAbs(R.st, c.nq)
+                  sub == [c EXCEPT !.qm = x, !.asg = [q \in QIds(c) |-> IF x[q].a THEN x[q].next - 1 ELSE -1],
+                                   !.cur = NoCall,
+                                   !.pendP = << [st |-> x, op |-> NoCall] >>, !.pendW = << [st |-> x, op |-> NoCall] >>,
+                                   !.crashfree = FALSE, !.sub = TRUE, !.subprops = {"C09"}]
+              IN /\ saved' = c
+                 /\ ctx' = WithPrev(sub, R.st)
+           ELSE UNCHANGED <<ctx, saved>>
+  /\ UNCHANGED refObs
+
 TrPop ==
   /\ R.ev = "pop"
   /\ ctx' = saved
@@ -357,7 +406,7 @@ TrPop ==
 TraceNext ==
   /\ l <= NLines
   /\ l' = l + 1
-  /\ \/ TrRun \/ TrInit \/ TrBegin \/ TrEnd \/ TrCrash \/ TrPop
+  /\ \/ TrRun \/ TrInit \/ TrBegin \/ TrEnd \/ TrCrash \/ TrPop \/ TrDamage
 
 TraceInit ==
   /\ l = 1
